@@ -7,6 +7,21 @@ set_option linter.unusedVariables false
 namespace Uft.Events
 open Uft.Mcount
 
+/-! ### uint64 durations -/
+
+theorem subU64_of_le (a b : Nat) (h : b ≤ a) (ha : a < u64) : subU64 a b = a - b := by
+  unfold subU64
+  have hb : b < u64 := by omega
+  rw [Nat.mod_eq_of_lt ha, Nat.mod_eq_of_lt hb]
+  have : a + u64 - b = (a - b) + u64 := by omega
+  rw [this, Nat.add_mod_right, Nat.mod_eq_of_lt (by omega)]
+
+/-- a call that takes measurable time on the 64-bit clock passes a zero threshold (for the code
+    before the repair of S4 as well) -/
+theorem durOk_sub_of_lt (cfg : Cfg) (t0 t1 : Nat) (h : t0 < t1) (h1 : t1 < u64) : durOk cfg (subU64 t1 t0) 0 = true := by
+  rw [subU64_of_le t1 t0 (by omega) h1]
+  exact durOk_of_lt cfg t0 t1 h
+
 /-! ### takeAsync -/
 
 theorem takeAsync_append (p : List Ev) (ts : Nat) :
@@ -346,13 +361,24 @@ theorem saveReadL_withW (pair : Bool) (off now midx : Nat) (diff : Bool) (o : Ob
   | nil => intro f; rfl
   | cons s r ih => intro f; simp only [saveReadL, saveReadOne_withW, ih]
 
+/-- at exit (`diff`) there is no up-front test -/
+theorem saveRead_exit (cfg : ECfg) (f : EFrame) (mask midx : Nat) (o : Obs) :
+    saveRead cfg f mask midx true o =
+      saveReadL cfg.fixPair (argDataOff cfg f o.probe) (hookTime f.b) midx true o mask readEvents f := by
+  simp [saveRead]
+
+theorem saveRead_withW (cfg : ECfg) (F : EFrame) (w : Bool) (mask midx : Nat) (diff : Bool) (o : Obs) :
+    saveRead cfg (withW F w) mask midx diff o = withW (saveRead cfg F mask midx diff o) w := by
+  unfold saveRead
+  simp only [argDataOff_withW, hookTime_withW, withW_eventIdx, saveReadL_withW]
+  exact (apply_ite (fun x => withW x w) _ _ _).symm
+
 theorem exitArea_withW (cfg : ECfg) (F : EFrame) (w : Bool) (n : Nat) (o : Obs) :
     exitArea cfg (withW F w) n o = withW (exitArea cfg F n o) w := by
   unfold exitArea
   simp only [withW_readFl]
   by_cases h : F.readFl = true
-  · simp only [h, ↓reduceIte, saveRead, argDataOff_withW, hookTime_withW, withW_addr, saveReadL_withW, withW_eventIdx]
-    split <;> rfl
+  · simp only [h, ↓reduceIte, withW_addr, saveRead_withW]
   · simp [h]
 
 
@@ -436,7 +462,7 @@ def exitOut (cfg : ECfg) (F : EFrame) (t1 d : Nat) (o : Obs) : List Out :=
 theorem exitE_unfold (cfg : ECfg) (hp : PlainE cfg) (s2 : ESt) (top : EFrame) (rest : List EFrame) (t1 : Nat) (o : Obs)
     (hfr : s2.frames = top :: rest) (hover : s2.over = 0) (hnr : top.b.norecord = false)
     (hen : s2.enabled = true) (hft : s2.filt.time = noTime)
-    (hdur : durOk cfg.base (t1 - top.b.start) 0 = true) (hpend : s2.pend = []) :
+    (hdur : durOk cfg.base (subU64 t1 top.b.start) 0 = true) (hpend : s2.pend = []) :
     exitE cfg s2 t1 o =
       { s2 with
         filt := { s2.filt with
@@ -460,7 +486,7 @@ theorem exitE_plain (cfg : ECfg) (hp : PlainE cfg) (k : Kind) (s2 : ESt) (d f t0
     (rest : List EFrame) (o : Obs)
     (hb : F.b = plainFrame k f t0 d) (hev : ∀ e ∈ F.evs, e.time = t0)
     (hfr : s2.frames = withW F w :: rest)
-    (hg : GoodE s2 (d + 1)) (ht : t0 < t1)
+    (hg : GoodE s2 (d + 1)) (ht : t0 < t1) (htu : t1 < u64)
     (hw : w = true → markToE rest = rest) :
     (exitE cfg s2 t1 o).out =
       s2.out ++ (if w then [] else pendingE rest ++ ([entryOut F] ++ (entryEvs F).map .event)) ++
@@ -477,9 +503,9 @@ theorem exitE_plain (cfg : ECfg) (hp : PlainE cfg) (k : Kind) (s2 : ESt) (d f t0
   have hEF := entryEvs_of_all F hev'
   have hnr : (withW F w).b.norecord = false := by simp [withW, hb, plainFrame]
   have hdis : (withW F w).b.disabled = false := by simp [withW, hb, plainFrame]
-  have hdur : durOk cfg.base (t1 - (withW F w).b.start) 0 = true := by
+  have hdur : durOk cfg.base (subU64 t1 (withW F w).b.start) 0 = true := by
     have : (withW F w).b.start = t0 := by simp [withW, hst]
-    rw [this]; exact durOk_of_lt cfg.base t0 t1 ht
+    rw [this]; exact durOk_sub_of_lt cfg.base t0 t1 ht htu
   have hu := exitE_unfold cfg hp s2 (withW F w) rest t1 o hfr h1 hnr h4 h9 hdur h12
   -- the frame record_trace_data sees
   have hX : exitArea cfg (setEnd (withW F w) t1) (rest.length + 1) o = withW (exitFrame cfg F t1 d o) w := by
@@ -558,9 +584,9 @@ mutual
 end
 
 mutual
-  /-- every call takes measurable time on the clock (t0 < t1) -/
+  /-- every call takes measurable time on the (64-bit) clock: t0 < t1 < 2^64 -/
   def ECall.timed : ECall → Prop
-    | .node _ t0 t1 _ _ kids => t0 < t1 ∧ kids.timed
+    | .node _ t0 t1 _ _ kids => t0 < t1 ∧ t1 < u64 ∧ kids.timed
   def ECalls.timed : ECalls → Prop
     | .nil => True
     | .cons c rest => c.timed ∧ rest.timed
@@ -598,7 +624,7 @@ theorem emitE_call (cfg : ECfg) (hp : PlainE cfg) (k : Kind) :
     simp only [ECall.height] at hm hd
     simp only [ECall.timed] at ht
     obtain ⟨e1, e2, e3, e4⟩ := entryE_plain cfg hp k s d f t0 oE hg (by omega) (by omega)
-    have hk := emitE_calls cfg hp k kids (entryE cfg k s f t0 oE).1 (d + 1) e4 (by omega) (by omega) ht.2
+    have hk := emitE_calls cfg hp k kids (entryE cfg k s f t0 oE).1 (d + 1) e4 (by omega) (by omega) ht.2.2
     have hFb := entryFrame_b cfg k f t0 d oE
     have hFev := entryFrame_evs_time cfg k f t0 d oE
     have hFw : (entryFrame cfg k f t0 d oE).b.written = false := by rw [hFb]; rfl
@@ -608,7 +634,7 @@ theorem emitE_call (cfg : ECfg) (hp : PlainE cfg) (k : Kind) :
       simp only [runECalls]
       obtain ⟨x1, x2, x3⟩ := exitE_plain cfg hp k (entryE cfg k s f t0 oE).1 d f t0 t1 false
         (entryFrame cfg k f t0 d oE) s.frames oX hFb hFev
-        (by rw [e3, withW_self _ _ hFw]) e4 ht.1 (by simp)
+        (by rw [e3, withW_self _ _ hFw]) e4 ht.1 ht.2.1 (by simp)
       refine ⟨?_, x2, x3⟩
       rw [x1, e2]
       simp [specCall, specCalls]
@@ -619,7 +645,7 @@ theorem emitE_call (cfg : ECfg) (hp : PlainE cfg) (k : Kind) :
       rw [e3, pendingE_cons_unwritten _ _ hFw, e2] at k1
       obtain ⟨x1, x2, x3⟩ := exitE_plain cfg hp k
         (runECalls cfg k (entryE cfg k s f t0 oE).1 (.cons c rest)) d f t0 t1 true
-        (entryFrame cfg k f t0 d oE) (markToE s.frames) oX hFb hFev k2 k3 ht.1 (fun _ => markToE_markToE _)
+        (entryFrame cfg k f t0 d oE) (markToE s.frames) oX hFb hFev k2 k3 ht.1 ht.2.1 (fun _ => markToE_markToE _)
       refine ⟨?_, by rw [x2, markToE_markToE], x3⟩
       rw [x1, k1]
       simp [specCall]
